@@ -169,7 +169,8 @@ def run(repo: Repo, chk: Check, thorough: bool = False) -> None:
     def _sanitising(g: Func) -> bool:
         reps = [c for c in calls_in(g) if call_name(c) == 'replace' and isinstance(c.func, ast.Attribute)]
         kws = {k.arg for c in reps for k in c.keywords}
-        scope = [g] + [h for h in repo.funcs.values() if h.outer is g]
+        called_g = {call_name(c) for c in calls_in(g)}
+        scope = [g] + [h for h in repo.funcs.values() if h.outer is g or (h.mod is g.mod and h.cls is None and h.outer is None and h.name.startswith('_') and h.name in called_g)]
         helpers = {nm for h in scope for c in calls_in(h) if call_name(c) == 'escape' for nm in [h.name]} | \
             {k.name for k in repo.classes.values() if k.mod is g.mod and any(call_name(c) == 'escape' for m in k.methods.values() for c in calls_in(m))}
         from ..util import single_value
@@ -183,7 +184,8 @@ def run(repo: Repo, chk: Check, thorough: bool = False) -> None:
     # ... or the one consumer does it: format_signature stringifies the result of such a function, which keeps the escaping formatters and wraps the rest
     def _keeps_formatters(g: Func) -> bool:
         return any(isinstance(c, ast.Call) and call_name(c) == 'isinstance' and len(c.args) == 2 and any(nm_ in norm(c.args[1]) for nm_ in fmts)
-                   for h in [g] + [h for h in repo.funcs.values() if h.outer is g] for c in calls_in(h))
+                   for h in [g] + [h for h in repo.funcs.values() if h.outer is g or (h.mod is g.mod and h.cls is None and h.outer is None and h.name.startswith('_') and
+                                                                                         h.name in {call_name(c) for c in calls_in(g)})] for c in calls_in(h))
     consumer_ok = bool(strs) and all(isinstance(c.args[0], ast.Call) and (lambda cal: bool(cal) and all(_sanitising(g) and _keeps_formatters(g) for g in cal))(repo.callees(c.args[0], fs)[0])
                                      for c in strs)
     n_w = 0
@@ -269,6 +271,7 @@ def run(repo: Repo, chk: Check, thorough: bool = False) -> None:
                                                                                   (g.mod is dep.mod and g.cls is None and g.outer is None and
                                                                                    any(call_name(c) == 'isidentifier' for c in calls_in(g))))}
     validators = set(vfuncs)
+    _REPO10[:] = [repo]
     for c in fcalls:
         for kw in c.keywords:
             v = kw.value
@@ -311,6 +314,11 @@ def run(repo: Repo, chk: Check, thorough: bool = False) -> None:
                                  call_name(g_.generators[0].iter) == 'split' and isinstance(g_.generators[0].iter.func, ast.Attribute) and
                                  isinstance(g_.generators[0].iter.func.value, ast.Name) and g_.generators[0].iter.func.value.id in vparams and
                                  len(g_.generators[0].iter.args) == 1 for g_ in vf.walk()) if idc else False
+        # the same decomposition as a loop: `for part in <param>.split(sep): if not part.isidentifier(): return False`
+        if idc and not cuts and not whole:
+            whole = any(isinstance(lp_, ast.For) and isinstance(lp_.iter, ast.Call) and call_name(lp_.iter) == 'split' and isinstance(lp_.iter.func, ast.Attribute) and
+                        isinstance(lp_.iter.func.value, ast.Name) and lp_.iter.func.value.id in vparams and len(lp_.iter.args) == 1 and
+                        any(c in idc for st in lp_.body for c in ast.walk(st)) for lp_ in vf.walk())
         if idc:
             chk.ob('R10.5', f'deprecatedToUsefulText.{vn} :: the whole text is decomposed and tested', whole,
                    'all parts of <param>.split(sep), the parameter is used as it comes' if whole else
@@ -667,6 +675,9 @@ def _formatter_value(f: Func, v: ast.AST, fmts: Set[str]) -> Tuple[bool, str]:
     return False, f'{norm(v)[:40]} is handed to inspect.Signature raw: its repr() is re-parsed as HTML by format_signature'
 
 
+_REPO10: List[Repo] = []
+
+
 def _interp_guard(f: Func, cfg: CFG, call: ast.Call, var: str, validators: Set[str]) -> Tuple[bool, str]:
     """How is `var` made safe before it is interpolated into the reST template?"""
     st = cfg.stmt_of(call)
@@ -699,10 +710,22 @@ def _interp_guard(f: Func, cfg: CFG, call: ast.Call, var: str, validators: Set[s
     # second idiom: character-wise escaping - `var = ''.join(c if <c is alphanumeric or the blank> else '\\' + c for c in <var, white space normalised>)`:
     # reST takes a backslash-escaped character literally, whatever it is; every run of white space (all line boundaries included) must have become ' '
     def _charwise(n: ast.AST) -> bool:
-        if not (isinstance(n, ast.Assign) and any(isinstance(t, ast.Name) and t.id == var for t in n.targets) and isinstance(n.value, ast.Call) and
-                call_name(n.value) == 'join' and n.value.args and isinstance(n.value.args[0], (ast.GeneratorExp, ast.ListComp))):
+        if not (isinstance(n, ast.Assign) and any(isinstance(t, ast.Name) and t.id == var for t in n.targets) and isinstance(n.value, ast.Call)):
             return False
-        g_ = n.value.args[0]
+        # the escaping may be extracted into a private helper of the module: `var = _escape(var)` with `def _escape(p): return ''.join(... for c in p...)`
+        if isinstance(n.value.func, ast.Name) and len(n.value.args) == 1 and isinstance(n.value.args[0], ast.Name) and n.value.args[0].id == var:
+            for h_ in _REPO10[0].funcs.values():
+                if h_.mod is f.mod and h_.name == n.value.func.id and h_.cls is None and len(h_.params()) == 1:
+                    rets_h = [r for r in h_.walk() if isinstance(r, ast.Return) and r.value is not None]
+                    if len(rets_h) == 1 and isinstance(rets_h[0].value, ast.Call):
+                        return _charwise_value(rets_h[0].value, h_.params()[0].arg)
+            return False
+        return _charwise_value(n.value, var)
+
+    def _charwise_value(value: ast.Call, var: str) -> bool:
+        if not (call_name(value) == 'join' and value.args and isinstance(value.args[0], (ast.GeneratorExp, ast.ListComp))):
+            return False
+        g_ = value.args[0]
         if len(g_.generators) != 1 or not isinstance(g_.generators[0].target, ast.Name) or not isinstance(g_.elt, ast.IfExp):
             return False
         cv = g_.generators[0].target.id
